@@ -422,7 +422,24 @@ func tableDrivenIDs(st *ssa.Store) map[*types.Var]string {
 		return nil
 	}
 	f := core.CalleeObj(lookup)
-	if f == nil || f.Pkg() == nil || f.Pkg().Path() != pkgArrowUtils || !strings.Contains(f.Name(), "FieldID") {
+	funcIdx := -1
+	if f == nil {
+		// the lookup function itself is a component of the row (`row.lookup(schema, row.name)`): every row must name
+		// one of the accessors' column-id lookups (checked below)
+		switch fv := lookup.Call.Value.(type) {
+		case *ssa.Field:
+			if fv.X == rowVal {
+				funcIdx = fv.Field
+			}
+		case *ssa.UnOp:
+			if fa, ok := fv.X.(*ssa.FieldAddr); ok && fv.Op == token.MUL && fa.X == rowVal {
+				funcIdx = fa.Field
+			}
+		}
+		if funcIdx < 0 {
+			return nil
+		}
+	} else if f.Pkg() == nil || f.Pkg().Path() != pkgArrowUtils || !strings.Contains(f.Name(), "FieldID") {
 		return nil
 	}
 	nameIdx := -1
@@ -433,7 +450,7 @@ func tableDrivenIDs(st *ssa.Store) map[*types.Var]string {
 				nameIdx = n.Field
 			}
 		case *ssa.UnOp:
-			if fa, ok := n.X.(*ssa.FieldAddr); ok && n.Op == token.MUL && fa.X == rowVal {
+			if fa, ok := n.X.(*ssa.FieldAddr); ok && n.Op == token.MUL && (fa.X == rowVal || core.SameValue(fa.X, rowVal)) {
 				nameIdx = fa.Field
 			}
 		}
@@ -466,14 +483,16 @@ func tableDrivenIDs(st *ssa.Store) map[*types.Var]string {
 	if elemAddr == nil {
 		return nil
 	}
-	sl, ok := core.Strip(elemAddr.X).(*ssa.Slice)
-	if !ok {
+	var arr *ssa.Alloc
+	if sl, ok := core.Strip(elemAddr.X).(*ssa.Slice); ok {
+		arr, _ = sl.X.(*ssa.Alloc)
+	} else {
+		arr, _ = core.Strip(elemAddr.X).(*ssa.Alloc) // an array literal indexed in place
+	}
+	if arr == nil {
 		return nil
 	}
-	arr, ok := sl.X.(*ssa.Alloc)
-	if !ok {
-		return nil
-	}
+	funcOK := map[int64]bool{}
 	names := map[int64]string{}
 	targets := map[int64]*types.Var{}
 	for _, ref := range *arr.Referrers() {
@@ -505,11 +524,23 @@ func tableDrivenIDs(st *ssa.Store) map[*types.Var]string {
 						targets[k] = core.FieldVar(tgt)
 					}
 				}
+				if fa.Field == funcIdx && funcIdx >= 0 {
+					v := s3.Val
+					if cf, ok := v.(*ssa.ChangeType); ok {
+						v = cf.X
+					}
+					if fn, ok := v.(*ssa.Function); ok && fn.Pkg != nil && fn.Pkg.Pkg.Path() == pkgArrowUtils && strings.Contains(fn.Name(), "FieldID") {
+						funcOK[k] = true
+					}
+				}
 			}
 		}
 	}
 	out := map[*types.Var]string{}
 	for k, n := range names {
+		if funcIdx >= 0 && !funcOK[k] {
+			continue
+		}
 		if t := targets[k]; t != nil {
 			out[t] = n
 		}
